@@ -137,31 +137,31 @@ package plush
 //@ func (c *compiler) evalExpression
 //@ requires wf: node == nil || pay(node) != 0
 //@ requires cctx: cctx(c)
-//@ ensures restored: c.ctx == old(c.ctx) && (c.curStmt == nil || pay(c.curStmt) != 0)
+//@ ensures restored: c.ctx == old(c.ctx) && (c.curStmt == nil || pay(c.curStmt) != 0) && c.fnDepth == old(c.fnDepth)
 //@ ensures stmtkept: err == nil ==> c.curStmt == old(c.curStmt)
 // evaluating a bare path (an identifier) never runs a statement: the marker is untouched even when it
 // fails (this is what makes the tolerated unknown-identifier faults harmless for C15)
 //@ ensures stmtident: is(node, "*ast.Identifier") ==> c.curStmt == old(c.curStmt)
 //@ ensures ufn: is(result, "*userFunction") ==> pay(result) != 0
 //@ errprop
-//@ assigns c.ctx, c.curStmt, mapsof("map[string]interface{}"), fresh
+//@ assigns c.ctx, c.curStmt, c.fnDepth, mapsof("map[string]interface{}"), fresh
 
 //@ func (c *compiler) evalAssignExpression
 //@ ensures ufn: is(result, "*userFunction") ==> pay(result) != 0
 //@ requires node != nil
 //@ requires cctx: cctx(c)
-//@ ensures restored: c.ctx == old(c.ctx) && (c.curStmt == nil || pay(c.curStmt) != 0)
+//@ ensures restored: c.ctx == old(c.ctx) && (c.curStmt == nil || pay(c.curStmt) != 0) && c.fnDepth == old(c.fnDepth)
 //@ ensures stmtkept: err == nil ==> c.curStmt == old(c.curStmt)
 //@ errprop
-//@ assigns c.ctx, c.curStmt, mapsof("map[string]interface{}"), fresh
+//@ assigns c.ctx, c.curStmt, c.fnDepth, mapsof("map[string]interface{}"), fresh
 
 //@ func (c *compiler) evalLetStatement
 //@ requires node != nil
 //@ requires cctx: cctx(c)
-//@ ensures restored: c.ctx == old(c.ctx) && (c.curStmt == nil || pay(c.curStmt) != 0)
+//@ ensures restored: c.ctx == old(c.ctx) && (c.curStmt == nil || pay(c.curStmt) != 0) && c.fnDepth == old(c.fnDepth)
 //@ ensures stmtkept: err == nil ==> c.curStmt == old(c.curStmt)
 //@ errprop
-//@ assigns c.ctx, c.curStmt, mapsof("map[string]interface{}"), fresh
+//@ assigns c.ctx, c.curStmt, c.fnDepth, mapsof("map[string]interface{}"), fresh
 
 //@ func (c *compiler) evalFunctionLiteral
 //@ ensures ufn: is(result, "*userFunction") ==> pay(result) != 0
@@ -174,10 +174,10 @@ package plush
 //@ ensures ufn: is(result, "*userFunction") ==> pay(result) != 0
 //@ requires node != nil
 //@ requires cctx: cctx(c)
-//@ ensures restored: c.ctx == old(c.ctx) && (c.curStmt == nil || pay(c.curStmt) != 0)
+//@ ensures restored: c.ctx == old(c.ctx) && (c.curStmt == nil || pay(c.curStmt) != 0) && c.fnDepth == old(c.fnDepth)
 //@ ensures stmtkept: err == nil ==> c.curStmt == old(c.curStmt)
 //@ errprop tolerate is(e, "*ErrUnknownIdentifier") && is(node.Right, "*ast.Identifier")
-//@ assigns c.ctx, c.curStmt, mapsof("map[string]interface{}"), fresh
+//@ assigns c.ctx, c.curStmt, c.fnDepth, mapsof("map[string]interface{}"), fresh
 
 // ---- C07: exactly the first truthy branch; no later condition is evaluated --------------------------
 //@ func (c *compiler) evalIfExpression
@@ -194,10 +194,10 @@ package plush
 //@ ensures ufn: is(result, "*userFunction") ==> pay(result) != 0
 //@ requires node != nil
 //@ requires cctx: cctx(c)
-//@ ensures restored: c.ctx == old(c.ctx) && (c.curStmt == nil || pay(c.curStmt) != 0)
+//@ ensures restored: c.ctx == old(c.ctx) && (c.curStmt == nil || pay(c.curStmt) != 0) && c.fnDepth == old(c.fnDepth)
 //@ ensures stmtkept: err == nil ==> c.curStmt == old(c.curStmt)
 //@ errprop tolerate is(e, "*ErrUnknownIdentifier") && is(node.Condition, "*ast.Identifier")
-//@ assigns c.ctx, c.curStmt, mapsof("map[string]interface{}"), fresh
+//@ assigns c.ctx, c.curStmt, c.fnDepth, mapsof("map[string]interface{}"), fresh
 
 //@ func (c *compiler) evalElseAndElseIfExpressions
 //@ ghost lastcon = callresult after evalExpression#1
@@ -216,20 +216,20 @@ package plush
 //@ ensures ufn: is(result, "*userFunction") ==> pay(result) != 0
 //@ requires node != nil
 //@ requires cctx: cctx(c)
-//@ ensures restored: c.ctx == old(c.ctx) && (c.curStmt == nil || pay(c.curStmt) != 0)
+//@ ensures restored: c.ctx == old(c.ctx) && (c.curStmt == nil || pay(c.curStmt) != 0) && c.fnDepth == old(c.fnDepth)
 //@ ensures stmtkept: err == nil ==> c.curStmt == old(c.curStmt)
 //@ errprop tolerate is(e, "*ErrUnknownIdentifier") && is(eiNode.Condition, "*ast.Identifier")
-//@ assigns c.ctx, c.curStmt, mapsof("map[string]interface{}"), fresh
+//@ assigns c.ctx, c.curStmt, c.fnDepth, mapsof("map[string]interface{}"), fresh
 //@ loop 1: invariant cctx(c) && c.ctx == old(c.ctx)
-//@ loop 1: invariant stmt: c.curStmt == old(c.curStmt)
+//@ loop 1: invariant stmt: c.curStmt == old(c.curStmt) && c.fnDepth == old(c.fnDepth)
 
 //@ func (c *compiler) evalReturnStatement
 //@ requires node != nil
 //@ requires cctx: cctx(c)
-//@ ensures restored: c.ctx == old(c.ctx) && (c.curStmt == nil || pay(c.curStmt) != 0)
+//@ ensures restored: c.ctx == old(c.ctx) && (c.curStmt == nil || pay(c.curStmt) != 0) && c.fnDepth == old(c.fnDepth)
 //@ ensures stmtkept: err == nil ==> c.curStmt == old(c.curStmt)
 //@ errprop
-//@ assigns c.ctx, c.curStmt, mapsof("map[string]interface{}"), fresh
+//@ assigns c.ctx, c.curStmt, c.fnDepth, mapsof("map[string]interface{}"), fresh
 
 // C02: inside a block, a code tag contributes nothing: an expression statement yields a value only if
 // it is literal template text or a control-flow object
@@ -237,43 +237,43 @@ package plush
 //@ ensures silent: is(node, "*ast.ExpressionStatement") && result != nil ==> is(result, "exitBlockStatment") || is(result, "ast.Printable") || (is(result, "template.HTML") && is(unbox(node, "*ast.ExpressionStatement").Expression, "*ast.HTMLLiteral"))
 //@ requires wf: node != nil && pay(node) != 0
 //@ requires cctx: cctx(c)
-//@ ensures restored: c.ctx == old(c.ctx) && (c.curStmt == nil || pay(c.curStmt) != 0)
+//@ ensures restored: c.ctx == old(c.ctx) && (c.curStmt == nil || pay(c.curStmt) != 0) && c.fnDepth == old(c.fnDepth)
 //@ ensures stmtkept: err == nil ==> c.curStmt == old(c.curStmt)
 //@ errprop
-//@ assigns c.ctx, c.curStmt, mapsof("map[string]interface{}"), fresh
+//@ assigns c.ctx, c.curStmt, c.fnDepth, mapsof("map[string]interface{}"), fresh
 
 //@ func (c *compiler) evalBlockStatement
 //@ ensures ufn: is(result, "*userFunction") ==> pay(result) != 0
 //@ requires node != nil
 //@ requires cctx: cctx(c)
-//@ ensures restored: c.ctx == old(c.ctx) && (c.curStmt == nil || pay(c.curStmt) != 0)
+//@ ensures restored: c.ctx == old(c.ctx) && (c.curStmt == nil || pay(c.curStmt) != 0) && c.fnDepth == old(c.fnDepth)
 //@ ensures stmtkept: err == nil ==> c.curStmt == old(c.curStmt)
 //@ errprop
-//@ assigns c.ctx, c.curStmt, mapsof("map[string]interface{}"), fresh
+//@ assigns c.ctx, c.curStmt, c.fnDepth, mapsof("map[string]interface{}"), fresh
 //@ loop 1: invariant cctx(c) && c.ctx == old(c.ctx)
-//@ loop 1: invariant stmt: c.curStmt == old(c.curStmt)
+//@ loop 1: invariant stmt: c.curStmt == old(c.curStmt) && c.fnDepth == old(c.fnDepth)
 
 //@ func (c *compiler) evalArrayLiteral
 //@ ensures ufn: is(result, "*userFunction") ==> pay(result) != 0
 //@ requires node != nil
 //@ requires cctx: cctx(c)
-//@ ensures restored: c.ctx == old(c.ctx) && (c.curStmt == nil || pay(c.curStmt) != 0)
+//@ ensures restored: c.ctx == old(c.ctx) && (c.curStmt == nil || pay(c.curStmt) != 0) && c.fnDepth == old(c.fnDepth)
 //@ ensures stmtkept: err == nil ==> c.curStmt == old(c.curStmt)
 //@ errprop
-//@ assigns c.ctx, c.curStmt, mapsof("map[string]interface{}"), fresh
+//@ assigns c.ctx, c.curStmt, c.fnDepth, mapsof("map[string]interface{}"), fresh
 //@ loop 1: invariant cctx(c) && c.ctx == old(c.ctx)
-//@ loop 1: invariant stmt: c.curStmt == old(c.curStmt)
+//@ loop 1: invariant stmt: c.curStmt == old(c.curStmt) && c.fnDepth == old(c.fnDepth)
 
 //@ func (c *compiler) evalHashLiteral
 //@ ensures ufn: is(result, "*userFunction") ==> pay(result) != 0
 //@ requires node != nil
 //@ requires cctx: cctx(c)
-//@ ensures restored: c.ctx == old(c.ctx) && (c.curStmt == nil || pay(c.curStmt) != 0)
+//@ ensures restored: c.ctx == old(c.ctx) && (c.curStmt == nil || pay(c.curStmt) != 0) && c.fnDepth == old(c.fnDepth)
 //@ ensures stmtkept: err == nil ==> c.curStmt == old(c.curStmt)
 //@ errprop
-//@ assigns c.ctx, c.curStmt, mapsof("map[string]interface{}"), fresh
+//@ assigns c.ctx, c.curStmt, c.fnDepth, mapsof("map[string]interface{}"), fresh
 //@ loop 1: invariant cctx(c) && c.ctx == old(c.ctx)
-//@ loop 1: invariant stmt: c.curStmt == old(c.curStmt)
+//@ loop 1: invariant stmt: c.curStmt == old(c.curStmt) && c.fnDepth == old(c.fnDepth)
 
 //@ pred cctx(c *compiler) = is(c.ctx, "*Context") && pay(c.ctx) != 0 && (c.curStmt == nil || pay(c.curStmt) != 0)
 
@@ -307,7 +307,7 @@ package plush
 //@ requires node != nil
 //@ requires wfargs: forall i int :: 0 <= i && i < len(args) ==> (args[i] == nil || pay(args[i]) != 0)
 //@ requires cctx: cctx(c)
-//@ ensures restored: c.ctx == old(c.ctx) && (c.curStmt == nil || pay(c.curStmt) != 0)
+//@ ensures restored: c.ctx == old(c.ctx) && (c.curStmt == nil || pay(c.curStmt) != 0) && c.fnDepth == old(c.fnDepth)
 //@ ensures stmtkept: err == nil ==> c.curStmt == old(c.curStmt)
 //@ ensures arity: len(args) < len(node.Parameters) ==> err != nil
 // C16: the call yields the value of the return the body reached (fval of what the body handed back)
@@ -320,20 +320,20 @@ package plush
 //@ ghost child = callresult after New#1
 //@ assert freshscope: calls(New) == 1 && c.ctx == child && callarg1 == node.Block before evalBlockStatement#1
 //@ errprop
-//@ assigns c.ctx, c.curStmt, mapsof("map[string]interface{}"), fresh
+//@ assigns c.ctx, c.curStmt, c.fnDepth, mapsof("map[string]interface{}"), fresh
 //@ loop 1: invariant callerscope: cctx(c) && c.ctx == old(c.ctx) && len(vals) == len(node.Parameters) && len(args) >= len(node.Parameters) && 0 <= ridx1
 //@ loop 2: invariant calleescope: cctx(c) && octx == old(c.ctx) && c.ctx != old(c.ctx) && len(vals) == len(node.Parameters) && 0 <= ridx2
-//@ loop 1: invariant stmt: c.curStmt == old(c.curStmt)
-//@ loop 2: invariant stmt: c.curStmt == old(c.curStmt)
+//@ loop 1: invariant stmt: c.curStmt == old(c.curStmt) && c.fnDepth == old(c.fnDepth)
+//@ loop 2: invariant stmt: c.curStmt == old(c.curStmt) && c.fnDepth == old(c.fnDepth)
 
 //@ func (c *compiler) evalIndexExpression
 //@ ensures ufn: is(result, "*userFunction") ==> pay(result) != 0
 //@ requires node != nil
 //@ requires cctx: cctx(c)
-//@ ensures restored: c.ctx == old(c.ctx) && (c.curStmt == nil || pay(c.curStmt) != 0)
+//@ ensures restored: c.ctx == old(c.ctx) && (c.curStmt == nil || pay(c.curStmt) != 0) && c.fnDepth == old(c.fnDepth)
 //@ ensures stmtkept: err == nil ==> c.curStmt == old(c.curStmt)
 //@ errprop
-//@ assigns c.ctx, c.curStmt, mapsof("map[string]interface{}"), fresh
+//@ assigns c.ctx, c.curStmt, c.fnDepth, mapsof("map[string]interface{}"), fresh
 
 //@ func (c *compiler) evalUpdateIndex
 //@ errprop
@@ -353,10 +353,10 @@ package plush
 //@ ensures ufn: is(result, "*userFunction") ==> pay(result) != 0
 //@ requires node != nil
 //@ requires cctx: cctx(c)
-//@ ensures restored: c.ctx == old(c.ctx) && (c.curStmt == nil || pay(c.curStmt) != 0)
+//@ ensures restored: c.ctx == old(c.ctx) && (c.curStmt == nil || pay(c.curStmt) != 0) && c.fnDepth == old(c.fnDepth)
 //@ ensures stmtkept: err == nil ==> c.curStmt == old(c.curStmt)
 //@ errprop
-//@ assigns c.ctx, c.curStmt, mapsof("map[string]interface{}"), fresh
+//@ assigns c.ctx, c.curStmt, c.fnDepth, mapsof("map[string]interface{}"), fresh
 
 //@ func (c *compiler) evalIndexCallee
 //@ ensures ufn: is(result, "*userFunction") ==> pay(result) != 0
@@ -365,12 +365,12 @@ package plush
 //@ loop 1: invariant cctx(c) && octx == unbox(old(c.ctx), "*Context")
 //@ loop 2: invariant len(ggg) >= 1 && cctx(c) && octx == unbox(old(c.ctx), "*Context")
 //@ requires cctx: cctx(c)
-//@ ensures restored: c.ctx == old(c.ctx) && (c.curStmt == nil || pay(c.curStmt) != 0)
+//@ ensures restored: c.ctx == old(c.ctx) && (c.curStmt == nil || pay(c.curStmt) != 0) && c.fnDepth == old(c.fnDepth)
 //@ ensures stmtkept: err == nil ==> c.curStmt == old(c.curStmt)
 //@ errprop
-//@ assigns c.ctx, c.curStmt, mapsof("map[string]interface{}"), fresh
-//@ loop 1: invariant stmt: c.curStmt == old(c.curStmt)
-//@ loop 2: invariant stmt: c.curStmt == old(c.curStmt)
+//@ assigns c.ctx, c.curStmt, c.fnDepth, mapsof("map[string]interface{}"), fresh
+//@ loop 1: invariant stmt: c.curStmt == old(c.curStmt) && c.fnDepth == old(c.fnDepth)
+//@ loop 2: invariant stmt: c.curStmt == old(c.curStmt) && c.fnDepth == old(c.fnDepth)
 
 // C11: member access. cv is the evaluated callee; rvd its value after one transparent pointer dereference;
 // fld the reflect field of that name (reflect's own semantics = what Go navigation yields).
@@ -392,10 +392,10 @@ package plush
 //@ ensures ufn: is(result, "*userFunction") ==> pay(result) != 0
 //@ requires node != nil
 //@ requires cctx: cctx(c)
-//@ ensures restored: c.ctx == old(c.ctx) && (c.curStmt == nil || pay(c.curStmt) != 0)
+//@ ensures restored: c.ctx == old(c.ctx) && (c.curStmt == nil || pay(c.curStmt) != 0) && c.fnDepth == old(c.fnDepth)
 //@ ensures stmtkept: err == nil ==> c.curStmt == old(c.curStmt)
 //@ errprop
-//@ assigns c.ctx, c.curStmt, mapsof("map[string]interface{}"), fresh
+//@ assigns c.ctx, c.curStmt, c.fnDepth, mapsof("map[string]interface{}"), fresh
 
 //@ pred arithop(op string) = op != "&&" && op != "||"
 // C06 dispatch: lv / rv are the evaluated operands (ghosts bound when the two evalExpression calls return).
@@ -420,10 +420,10 @@ package plush
 //@ ensures ufn: is(result, "*userFunction") ==> pay(result) != 0
 //@ requires node != nil
 //@ requires cctx: cctx(c)
-//@ ensures restored: c.ctx == old(c.ctx) && (c.curStmt == nil || pay(c.curStmt) != 0)
+//@ ensures restored: c.ctx == old(c.ctx) && (c.curStmt == nil || pay(c.curStmt) != 0) && c.fnDepth == old(c.fnDepth)
 //@ ensures stmtkept: err == nil ==> c.curStmt == old(c.curStmt)
 //@ errprop tolerate is(e, "*ErrUnknownIdentifier") && (node.Operator == "==" || node.Operator == "!=" || node.Operator == "&&" || node.Operator == "||") && (is(node.Left, "*ast.Identifier") || is(node.Right, "*ast.Identifier"))
-//@ assigns c.ctx, c.curStmt, mapsof("map[string]interface{}"), fresh
+//@ assigns c.ctx, c.curStmt, c.fnDepth, mapsof("map[string]interface{}"), fresh
 
 //@ func (c *compiler) arrayOperator
 //@ ensures ufn: is(result, "*userFunction") ==> pay(result) != 0
@@ -471,20 +471,29 @@ package plush
 //@ loop 3: invariant varok: forall j int :: rtNumIn-1 <= j && j < len(args) ==> rvValid(args[j]) && assignable(rvType(args[j]), expectedT__3)
 //@ loop 4: invariant cctx(c) && octx == unbox(old(c.ctx), "*Context")
 //@ requires cctx: cctx(c)
-//@ ensures restored: c.ctx == old(c.ctx) && (c.curStmt == nil || pay(c.curStmt) != 0)
+//@ ensures restored: c.ctx == old(c.ctx) && (c.curStmt == nil || pay(c.curStmt) != 0) && c.fnDepth == old(c.fnDepth)
 //@ ensures stmtkept: err == nil ==> c.curStmt == old(c.curStmt)
 //@ errprop
-//@ assigns c.ctx, c.curStmt, mapsof("map[string]interface{}"), fresh
-//@ loop 1: invariant stmt: c.curStmt == old(c.curStmt)
-//@ loop 2: invariant stmt: c.curStmt == old(c.curStmt)
-//@ loop 3: invariant stmt: c.curStmt == old(c.curStmt)
-//@ loop 4: invariant stmt: c.curStmt == old(c.curStmt)
+//@ assigns c.ctx, c.curStmt, c.fnDepth, mapsof("map[string]interface{}"), fresh
+//@ loop 1: invariant stmt: c.curStmt == old(c.curStmt) && c.fnDepth == old(c.fnDepth)
+//@ loop 2: invariant stmt: c.curStmt == old(c.curStmt) && c.fnDepth == old(c.fnDepth)
+//@ loop 3: invariant stmt: c.curStmt == old(c.curStmt) && c.fnDepth == old(c.fnDepth)
+//@ loop 4: invariant stmt: c.curStmt == old(c.curStmt) && c.fnDepth == old(c.fnDepth)
 
 // ---- C08: every element once, in order; break/continue keep what the iteration produced ------------
 // resval: what an iteration contributes to the loop's result (continue/break objects carry it)
 //@ spec resval(r any) any = ite(is(r, "continueObject"), box(unbox(r, "continueObject").Value), ite(is(r, "breakObject"), box(unbox(r, "breakObject").Value), r))
 //@ pred kept(r any, ret []interface{}, pret []interface{}) = (resval(r) == nil ==> ret == pret) &&
 //@     (resval(r) != nil ==> len(ret) == len(pret) + 1 && ret[len(pret)] == resval(r) && (forall j int :: 0 <= j && j < len(pret) ==> ret[j] == pret[j]))
+
+// loopReturn: what a loop that a return ended hands up - the return object itself when no earlier
+// iteration produced anything
+//@ pred nothing(v any) = is(v, "[]interface {}") && len(unbox(v, "[]interface {}")) == 0
+//@ func loopReturn
+//@ ensures plain: (forall j int :: 0 <= j && j < len(ret) ==> nothing(ret[j])) ==> result == ro
+//@ ensures wraps: is(box(result), "returnObject")
+//@ assigns nothing
+//@ loop 1: invariant ridx1 <= len(ret) && ((forall j int :: 0 <= j && j < ridx1 ==> nothing(ret[j])) ==> len(produced) == 0)
 
 //@ func (c *compiler) evalForExpression
 //@ ghost itv = callresult after evalExpression#1
@@ -493,7 +502,7 @@ package plush
 //@ loop 3: invariant visited: calls(evalBlockStatement) == i && i <= rvLen(riter) && riter == indirect(rvOf(itv))
 //@ assert bindslice: (rvKind(riter) == 23 || rvKind(riter) == 17) ==> view(unbox(c.ctx, "*Context"), box(node.ValueName)) == rvIface(rvIndex(riter, i)) && (node.KeyName != node.ValueName ==> view(unbox(c.ctx, "*Context"), box(node.KeyName)) == box(i)) before evalBlockStatement#1
 //@ loop 3: invariant kept: calls(evalBlockStatement) == prev(calls(evalBlockStatement)) + 1 ==> kept(lastres, ret, prev(ret))
-//@ ensures sliceall: err == nil && itv != nil && (rvKind(indirect(rvOf(itv))) == 23 || rvKind(indirect(rvOf(itv))) == 17) && !breakLoop ==> calls(evalBlockStatement) == rvLen(indirect(rvOf(itv)))
+//@ ensures sliceall: err == nil && itv != nil && (rvKind(indirect(rvOf(itv))) == 23 || rvKind(indirect(rvOf(itv))) == 17) && !breakLoop && !(c.fnDepth > 0 && is(lastres, "returnObject")) ==> calls(evalBlockStatement) == rvLen(indirect(rvOf(itv)))
 // iterators: pulled until exhausted, key = running count
 //@ loop 4: invariant pulled: calls(Next) == calls(evalBlockStatement) + 1 && i__3 == calls(evalBlockStatement)
 //@ assert binditer: view(unbox(c.ctx, "*Context"), box(node.ValueName)) == ii && ii != nil && (node.KeyName != node.ValueName ==> view(unbox(c.ctx, "*Context"), box(node.KeyName)) == box(i__3)) before evalBlockStatement#1
@@ -515,24 +524,29 @@ package plush
 //@ loop 4: invariant nobreak: !breakLoop__3
 //@ ensures keptbreak: err == nil && breakLoop ==> is(lastres, "breakObject") && is(result, "[]interface {}") && kept(lastres, unbox(result, "[]interface {}"), prev(ret))
 //@ ensures nilnothing: err == nil && itv == nil ==> calls(evalBlockStatement) == 0 && result == nil
+// C16: inside a function body the first return reached in the loop ends the loop: the loop's value is a
+// return object (handed up to end the function) and no further iteration is evaluated
+//@ ensures fnreturn: err == nil && c.fnDepth > 0 && calls(evalBlockStatement) > 0 && is(lastres, "returnObject") ==> is(result, "returnObject")
 //@ loop 1: invariant cctx(c) && octx == unbox(old(c.ctx), "*Context")
 //@ loop 2: invariant cctx(c) && octx == unbox(old(c.ctx), "*Context") && 0 <= i && rvKind(riter) == 21 && rvCanIface(riter)
 //@ loop 2: invariant keysok: forall j int :: 0 <= j && j < len(keys) ==> rvValid(keys[j]) && rvCanIface(keys[j]) && rvType(keys[j]) == tkey(rvType(riter))
 //@ loop 3: invariant cctx(c) && octx == unbox(old(c.ctx), "*Context") && 0 <= i && (rvKind(riter) == 23 || rvKind(riter) == 17) && rvCanIface(riter)
 // C16 "the first return reached ends the function": no return object may be collected while the loop goes on
-//@ loop 3: invariant noret: len(ret) > 0 ==> !is(ret[len(ret)-1], "returnObject")
+//@ loop 2: invariant noret: c.fnDepth > 0 && len(ret) > 0 ==> !is(ret[len(ret)-1], "returnObject")
+//@ loop 3: invariant noret: c.fnDepth > 0 && len(ret) > 0 ==> !is(ret[len(ret)-1], "returnObject")
+//@ loop 4: invariant noret: c.fnDepth > 0 && len(ret) > 0 ==> !is(ret[len(ret)-1], "returnObject")
 //@ loop 4: invariant cctx(c) && octx == unbox(old(c.ctx), "*Context")
 //@ ensures ufn: is(result, "*userFunction") ==> pay(result) != 0
 //@ requires node != nil
 //@ requires cctx: cctx(c)
-//@ ensures restored: c.ctx == old(c.ctx) && (c.curStmt == nil || pay(c.curStmt) != 0)
+//@ ensures restored: c.ctx == old(c.ctx) && (c.curStmt == nil || pay(c.curStmt) != 0) && c.fnDepth == old(c.fnDepth)
 //@ ensures stmtkept: err == nil ==> c.curStmt == old(c.curStmt)
 //@ errprop
-//@ assigns c.ctx, c.curStmt, mapsof("map[string]interface{}"), fresh
-//@ loop 1: invariant stmt: c.curStmt == old(c.curStmt)
-//@ loop 2: invariant stmt: c.curStmt == old(c.curStmt)
-//@ loop 3: invariant stmt: c.curStmt == old(c.curStmt)
-//@ loop 4: invariant stmt: c.curStmt == old(c.curStmt)
+//@ assigns c.ctx, c.curStmt, c.fnDepth, mapsof("map[string]interface{}"), fresh
+//@ loop 1: invariant stmt: c.curStmt == old(c.curStmt) && c.fnDepth == old(c.fnDepth)
+//@ loop 2: invariant stmt: c.curStmt == old(c.curStmt) && c.fnDepth == old(c.fnDepth)
+//@ loop 3: invariant stmt: c.curStmt == old(c.curStmt) && c.fnDepth == old(c.fnDepth)
+//@ loop 4: invariant stmt: c.curStmt == old(c.curStmt) && c.fnDepth == old(c.fnDepth)
 
 //@ iface plush.Iterator.Next(it) r
 //@ assigns mapsof("map[string]interface{}"), fresh
@@ -556,7 +570,7 @@ package plush
 //@ func (c *compiler) write
 //@ requires bb != nil
 //@ requires cctx: cctx(c)
-//@ ensures restored: c.ctx == old(c.ctx) && (c.curStmt == nil || pay(c.curStmt) != 0)
+//@ ensures restored: c.ctx == old(c.ctx) && (c.curStmt == nil || pay(c.curStmt) != 0) && c.fnDepth == old(c.fnDepth)
 //@ ensures str: is(i, "string") || is(i, "bool") ==> out(bb) == old(out(bb)) + escaper(i)
 //@ ensures html: is(i, "template.HTML") ==> out(bb) == old(out(bb)) + unbox(i, "template.HTML")
 //@ ensures nilv: i == nil ==> out(bb) == old(out(bb))
@@ -571,7 +585,7 @@ package plush
 //@ requires cctx: cctx(c)
 //@ requires prog: c.program != nil
 //@ ensures rendered: err == nil ==> trusted(result)
-//@ ensures restored: c.ctx == old(c.ctx) && (c.curStmt == nil || pay(c.curStmt) != 0)
+//@ ensures restored: c.ctx == old(c.ctx) && (c.curStmt == nil || pay(c.curStmt) != 0) && c.fnDepth == old(c.fnDepth)
 //@ ensures stmtkept: err == nil ==> c.curStmt == nil
 //@ ensures empty: err != nil ==> result == ""
 // C15: the line reported is that of the innermost statement that was being evaluated when the failure
@@ -582,9 +596,9 @@ package plush
 //@ ensures line: err != nil && c.curStmt != nil ==> linemsg(err, box(ast.tokof(c.curStmt).LineNumber))
 //@ ensures linetop: err != nil && c.curStmt == nil ==> linemsg(err, box(ast.tokof(stmt).LineNumber))
 //@ errprop
-//@ assigns c.ctx, c.curStmt, mapsof("map[string]interface{}"), fresh
+//@ assigns c.ctx, c.curStmt, c.fnDepth, mapsof("map[string]interface{}"), fresh
 //@ loop 1: invariant cctx(c) && c.ctx == old(c.ctx) && c.program == old(c.program) && bb != nil && trusted(out(bb))
-//@ loop 1: invariant nostale: c.curStmt == nil
+//@ loop 1: invariant nostale: c.curStmt == nil && c.fnDepth == old(c.fnDepth)
 
 //@ func (t *Template) Parse
 //@ ensures ok: err == nil ==> t.program != nil
@@ -615,21 +629,21 @@ package plush
 //@ ensures rendered: err == nil ==> trusted(result)
 //@ requires hc: !(is(hc, "*Context") && pay(hc) == 0)
 //@ requires comp: h.compiler != nil && cctx(h.compiler)
-//@ ensures restored: h.compiler.ctx == old(h.compiler.ctx) && (h.compiler.curStmt == nil || pay(h.compiler.curStmt) != 0)
+//@ ensures restored: h.compiler.ctx == old(h.compiler.ctx) && (h.compiler.curStmt == nil || pay(h.compiler.curStmt) != 0) && h.compiler.fnDepth == old(h.compiler.fnDepth)
 //@ ensures stmtkept: err == nil ==> h.compiler.curStmt == old(h.compiler.curStmt)
 //@ ensures empty: err != nil ==> result == ""
 //@ errprop
-//@ assigns h.compiler.ctx, h.compiler.curStmt, mapsof("map[string]interface{}"), fresh
+//@ assigns h.compiler.ctx, h.compiler.curStmt, h.compiler.fnDepth, mapsof("map[string]interface{}"), fresh
 
 //@ func (h HelperContext) Block
 //@ ensures rendered: err == nil ==> trusted(result)
 //@ requires hc: !(is(h.Context, "*Context") && pay(h.Context) == 0)
 //@ requires comp: h.compiler != nil && cctx(h.compiler)
-//@ ensures restored: h.compiler.ctx == old(h.compiler.ctx) && (h.compiler.curStmt == nil || pay(h.compiler.curStmt) != 0)
+//@ ensures restored: h.compiler.ctx == old(h.compiler.ctx) && (h.compiler.curStmt == nil || pay(h.compiler.curStmt) != 0) && h.compiler.fnDepth == old(h.compiler.fnDepth)
 //@ ensures stmtkept: err == nil ==> h.compiler.curStmt == old(h.compiler.curStmt)
 //@ ensures empty: err != nil ==> result == ""
 //@ errprop
-//@ assigns h.compiler.ctx, h.compiler.curStmt, mapsof("map[string]interface{}"), fresh
+//@ assigns h.compiler.ctx, h.compiler.curStmt, h.compiler.fnDepth, mapsof("map[string]interface{}"), fresh
 
 //@ func (h HelperContext) HasBlock
 //@ ensures def: result == (h.block != nil)
